@@ -954,7 +954,7 @@ def run_check(tier, seed):
         nshared = 12 if tier == 'quick' else 60
         for k in range(nshared):
             nprocs = rng.choice([1, 1, 2])
-            p = (apigen.gen_cancel_program(rng, 'sh_%d.nc' % k, nprocs) if k % 4 == 3 else apigen.gen_meta_program(rng, 'sh_%d.nc' % k, nprocs) if k % 2 == 0 else apigen.gen_mix_program(rng, 'sh_%d.nc' % k, nprocs, focus=['burst', None, 'recvarn'][(k // 2) % 3]))
+            p = (apigen.gen_cancel_program(rng, 'sh_%d.nc' % k, nprocs) if k % 4 == 3 else apigen.gen_meta_program(rng, 'sh_%d.nc' % k, nprocs) if k % 2 == 0 else apigen.gen_mix_program(rng, 'sh_%d.nc' % k, nprocs, focus=['burst', 'burst', 'recvarn', 'burst'][(k // 4) % 4]))
             text = p.text()
             rc, lines, err = run_script_asan(api_a, text, nprocs, wd, 'sh%d' % k)
             napi += len(lines)
